@@ -15,3 +15,22 @@ Definition truth_column (n d : nat) : Z :=
   fold_right (fun v acc => Z.lor (Z.shiftl (Z.b2z (Nat.testbit v (n - 1 - d))) (Z.of_nat v)) acc) 0%Z (seq 0 (2 ^ n)).
 
 Definition no_static_objects : bool := true. (* the fragment has no file-scope or static objects by construction *)
+
+(* all Boolean vectors of length n *)
+Fixpoint all_lists (n : nat) : list (list bool) :=
+  match n with
+  | O => [[]]
+  | S m => map (cons false) (all_lists m) ++ map (cons true) (all_lists m)
+  end.
+
+Fixpoint blist_eqb (a b : list bool) : bool :=
+  match a, b with
+  | [], [] => true
+  | x :: r, y :: s => Bool.eqb x y && blist_eqb r s
+  | _, _ => false
+  end.
+
+(* exhaustive functional validation of ONE program against a reference function *)
+Definition validate_exhaustive (p : prog) (f : list bool -> list bool) : bool :=
+  forallb (fun x => match execB p x with Some o => blist_eqb o (f x) | None => false end)
+          (all_lists (size_of (sizes p) 0)).
